@@ -286,6 +286,8 @@ class CtlRun(object):
 
     # ------------------------------------------------------------------ workload
     def workload_actions(self):
+        if self.finished_run:
+            return []
         if self.cut_done:
             return self.post_loss_actions()
         acts = []
@@ -335,6 +337,12 @@ class CtlRun(object):
             text = 'GETINFO x/%d' % idx
         else:
             text = 'XCMD%d arg%d' % (idx, ch.draw(3, 'arg'))
+            if ch.chance(1, 5, 'repeatable'):
+                # commands whose text repeats (the same question asked again while the first is still queued): every
+                # submission is a command of its own, with its own line on the wire and its own reply
+                text = ch.pick(['GETINFO status/x%d', 'GETCONF Opt%d', 'SETCONF Opt%d=1', 'SIGNAL S%d'], 'repverb') % ch.draw(2, 'repn')
+                if any(x.text == text and x.observed and not x.done for x in self.cmds):
+                    sim.probe('identical-command-queued-twice')
         c = Cmd(idx, kind, text)
         c.post_loss = post_loss
         if not post_loss:
@@ -346,7 +354,13 @@ class CtlRun(object):
         outstanding = sum(1 for x in self.cmds if x.observed and not x.done)
         if outstanding >= 4:
             sim.probe('queue-depth>=4')
-        if kind == 'plain' and self.prop in ('C01', 'C03') and ch.chance(1, 12, 'rawbytes'):
+        if kind == 'plain' and post_loss and ch.chance(1, 4, 'quit'):
+            # quit() is a command like any other (and may well be called more than once by tear-down code)
+            c.text = text = 'QUIT'
+            c.wire = ('exact', text)
+            sim.probe('quit-after-loss')
+            d = self.proto.quit()
+        elif kind == 'plain' and self.prop in ('C01', 'C03') and ch.chance(1, 12, 'rawbytes'):
             # a command handed over as bytes (the API accepts them) that is not ASCII
             c.text = text = text + '\xe9'
             c.wire = ('exact', text)
@@ -889,10 +903,18 @@ class CtlRun(object):
         sim.drain(max_steps=20000, on_step=self.check_step)
         sim.total_s2c = self.peer.sent
         self.check_final()
+        self.finished_run = True
+
+    finished_run = False
 
 
 def run(sim):
     CtlRun(sim).run()
+    if sim.prop in ('C01', 'C02') and sim.violation is None and sim.ch.chance(1, 6, 'secondconn'):
+        # a second control connection in the same process: nothing of the first one may carry over
+        sim.probe('second-connection-same-process')
+        sim.log('second-connection')
+        CtlRun(sim).run()
 
 
 def variants(base_sim, params):
